@@ -21,6 +21,7 @@ PUB, SUB, PUSH, PULL = 1, 2, 8, 7
 POLLIN = 1
 DONTWAIT = 1
 SNDHWM, RCVHWM, LINGER, RECONNECT_IVL, RECONNECT_IVL_MAX, SUBSCRIBE, UNSUBSCRIBE = 23, 24, 17, 18, 21, 6, 7
+SNDTIMEO, RCVTIMEO, IMMEDIATE = 28, 27, 39
 
 
 class Again(Exception):
@@ -415,9 +416,14 @@ class Socket:
                 l.queue.append(parts)
         elif self.type == PUSH:
             l = self.out_links[-1] if self.out_links else None
-            if l is None:
-                raise Again()
-            if len(l.queue) >= self.opts.get(SNDHWM, 1000):
+            if l is None or len(l.queue) >= self.opts.get(SNDHWM, 1000):
+                if not (flags & DONTWAIT) and w.cur is not None:
+                    # a blocking send on a full pipe blocks the caller: for SNDTIMEO ms, or for good
+                    to = self.opts.get(SNDTIMEO, -1)
+                    if to is None or to < 0:
+                        w.cur.park(('idle',))
+                    else:
+                        w.sleep(to / 1000)
                 raise Again()
             w.emit('req', self.owner, self.addr, parts, getattr(w.cur, 'inc', 0), w.step_no)
             l.queue.append(parts)
